@@ -230,6 +230,7 @@ proof fn lemma_lc_consequences(s: JobState, t: JobState)
         pre_unknown(t) ==> s == t,
         t == JobState::Ephemeral(JobStateEphemeral::NotReady(ValidationStatus::Invalidated)) ==> s == t || pre_unknown(s),
         fail_cause(s) ==> t == s,
+        is_skipped(t) ==> is_skipped(s) || pre_offer(s),
 {
     reveal(pre_le);
 }
@@ -324,6 +325,7 @@ impl<T: PPGEvaluatorStrategy> PPGEvaluator<T> {
         &&& self.wf_core()
         &&& self.signals@.len() == 0
         &&& val_rec(self.jobs@, self.history@)
+        &&& iso_ok(&self.dag, self.jobs@)
     }
 
     /// every observable aspect equal (C20).  Vec/HashMap are compared by view: Verus has no
@@ -2143,7 +2145,13 @@ proof fn lemma_arm_write(oldj: Seq<NodeInfo>, pre: Seq<NodeInfo>, post: Seq<Node
         is_rfc(pre[n].state) && !is_rfc(post[n].state) ==> c1 =~= c0.remove(pre[n].job_id),
         !is_rfc(pre[n].state) && is_rfc(post[n].state) ==> c1 =~= c0.insert(pre[n].job_id),
     ensures core_ok(post, m, dag, r1, c1, fin), jobs_step(oldj, post), jobs_step(pre, post), core_ok_x(post, m, dag, r1, c1, fin, -1),
+        (fail_cause(post[n].state) ==> fail_cause(pre[n].state)) ==> no_new_cause(pre, post),
 {
+    if fail_cause(post[n].state) ==> fail_cause(pre[n].state) {
+        assert forall|i: int| 0 <= i < post.len() && fail_cause(#[trigger] post[i].state) implies fail_cause(pre[i].state) by {
+            if i != n { assert(post[i].state == pre[i].state); }
+        }
+    }
     lemma_core_x(post, m, dag, r1, c1, fin, -1);
     if x == -1 { lemma_core_x(pre, m, dag, r0, c0, fin, -1); lemma_core_x(pre, m, dag, r0, c0, fin, n); }
     lemma_write_ok(pre, post, m, dag, r0, r1, c0, c1, fin, n);
@@ -2157,7 +2165,11 @@ proof fn lemma_arm_soft(oldj: Seq<NodeInfo>, pre: Seq<NodeInfo>, post: Seq<NodeI
         jobs_step(oldj, pre), core_ok(pre, m, dag, r0, c0, fin), jobs_soft(pre, post), soft_gate(pre, post, dag),
         edges_in_range(dag2, pre.len()), dag_dom_same(dag, dag2),
     ensures core_ok(post, m, dag2, r0, c0, fin), jobs_step(oldj, post), jobs_step(pre, post), core_ok_x(post, m, dag2, r0, c0, fin, -1),
+        no_new_cause(pre, post),
 {
+    assert forall|i: int| 0 <= i < post.len() && fail_cause(#[trigger] post[i].state) implies fail_cause(pre[i].state) by {
+        assert(post[i].job_id == pre[i].job_id);
+    }
     lemma_soft_ok(pre, post, m, dag, r0, c0, fin);
     lemma_dag_dom_range(dag, dag2, pre.len());
     assert forall|i: int| 0 <= i < post.len() implies (finished(post[i].state) ==> finished(#[trigger] post[i].state)) by {}
@@ -2171,6 +2183,7 @@ proof fn lemma_arm_touch(oldj: Seq<NodeInfo>, pre: Seq<NodeInfo>, post: Seq<Node
     requires
         jobs_step(oldj, pre), core_ok(pre, m, dag, r0, c0, fin), jobs_touch(pre, post),
     ensures core_ok(post, m, dag, r0, c0, fin), jobs_step(oldj, post), jobs_step(pre, post), core_ok_x(post, m, dag, r0, c0, fin, -1),
+        no_new_cause(pre, post),
 {
     lemma_touch_is_soft(pre, post);
     assert(soft_gate(pre, post, dag)) by {
@@ -2190,7 +2203,11 @@ proof fn lemma_arm_cleanup(oldj: Seq<NodeInfo>, pre: Seq<NodeInfo>, post: Seq<No
         forall|k: String| #[trigger] c1.contains(k) ==> c0.contains(k) || exists|i: int| 0 <= i < pre.len() && #[trigger] pre[i].job_id == k,
         forall|i: int| 0 <= i < pre.len() && is_rfc(#[trigger] post[i].state) && !is_rfc(pre[i].state) ==> all_down_done(dag, pre, i as usize),
     ensures core_ok(post, m, dag, r0, c1, fin), jobs_step(oldj, post), jobs_step(pre, post), core_ok_x(post, m, dag, r0, c1, fin, -1),
+        no_new_cause(pre, post),
 {
+    assert forall|i: int| 0 <= i < post.len() && fail_cause(#[trigger] post[i].state) implies fail_cause(pre[i].state) by {
+        assert(post[i].job_id == pre[i].job_id);
+    }
     lemma_core_x(post, m, dag, r0, c1, fin, -1);
     lemma_cleanup_ok(pre, post, m, dag, r0, c0, c1, fin);
     lemma_jobs_step_trans(oldj, pre, post);
@@ -2618,6 +2635,266 @@ proof fn lemma_upfail_kept(a: Seq<Signal>, b: Seq<Signal>, d: usize)
     assert(b.contains(a[k]));
     let q = choose|q: int| 0 <= q < b.len() && b[q] == a[k];
     assert(b[q].kind == SignalKind::JobUpstreamFailure && b[q].node_idx == d);
+}
+
+// ---- G3b (C07): isolation.  A job that has not been started (still before its offer, or skipped early) and has a
+// direct upstream that failed or is upstream-failed has a notification pending; with the queues empty there is no such job.
+/// the job still needs to hear about a failed upstream: not yet offered, or skipped early (the Ephemeral jobs on which only
+/// Ephemeral jobs depend are exempt: "they are never needed and simply stay skipped")
+#[verifier::opaque]
+spec fn needs_notice(dag: &GraphType, jobs: Seq<NodeInfo>, d: usize) -> bool {
+    pre_offer(jobs[d as int].state)
+        || (is_skipped(jobs[d as int].state) && !(jobs[d as int].state is Ephemeral && all_eph_down(dag, jobs, d)))
+}
+
+spec fn has_upfail_from(s: Seq<Signal>, from: int, d: usize) -> bool {
+    exists|k: int| from <= k < s.len() && (#[trigger] s[k]).kind == SignalKind::JobUpstreamFailure && s[k].node_idx == d
+}
+
+#[verifier::opaque]
+spec fn pend_ok(dag: &GraphType, jobs: Seq<NodeInfo>, q1: Seq<Signal>, from: int, q2: Seq<Signal>) -> bool {
+    forall|u: usize, d: usize| #![trigger dag.has_edge(u, d)] dag.has_edge(u, d) && fail_cause(jobs[u as int].state) && needs_notice(dag, jobs, d)
+        ==> has_upfail_from(q1, from, d) || has_upfail_signal(q2, d)
+}
+
+/// between public calls: no job that still waits (or was skipped) has a failed or upstream-failed direct upstream
+spec fn iso_ok(dag: &GraphType, jobs: Seq<NodeInfo>) -> bool {
+    pend_ok(dag, jobs, Seq::<Signal>::empty(), 0, Seq::<Signal>::empty())
+}
+
+/// what the clause says at the end of an evaluation, spelled out (every job finished)
+proof fn lemma_iso_meaning(dag: &GraphType, jobs: Seq<NodeInfo>, u: usize, d: usize)
+    requires iso_ok(dag, jobs), dag.has_edge(u, d), fail_cause(jobs[u as int].state),
+    ensures !pre_offer(jobs[d as int].state),
+        is_skipped(jobs[d as int].state) ==> jobs[d as int].state is Ephemeral && all_eph_down(dag, jobs, d),
+{
+    reveal(pend_ok);
+    reveal(needs_notice);
+    if needs_notice(dag, jobs, d) {
+        assert(has_upfail_from(Seq::<Signal>::empty(), 0, d) || has_upfail_signal(Seq::<Signal>::empty(), d));
+    }
+}
+
+spec fn no_new_cause(a: Seq<NodeInfo>, b: Seq<NodeInfo>) -> bool {
+    a.len() == b.len() && forall|i: int| 0 <= i < b.len() && fail_cause(#[trigger] b[i].state) ==> fail_cause(a[i].state)
+}
+
+/// every pending notification of `a` is still pending in `b`
+spec fn upf_mono(a: Seq<Signal>, b: Seq<Signal>) -> bool {
+    forall|d: usize| #![trigger has_upfail_signal(a, d)] has_upfail_signal(a, d) ==> has_upfail_signal(b, d)
+}
+
+proof fn lemma_upf_prefix(a: Seq<Signal>, b: Seq<Signal>)
+    requires a.len() <= b.len(), forall|k: int| 0 <= k < a.len() ==> #[trigger] b[k] == a[k],
+    ensures upf_mono(a, b),
+{
+    assert forall|d: usize| #![trigger has_upfail_signal(a, d)] has_upfail_signal(a, d) implies has_upfail_signal(b, d) by {
+        let k = choose|k: int| 0 <= k < a.len() && (#[trigger] a[k]).kind == SignalKind::JobUpstreamFailure && a[k].node_idx == d;
+        assert(b[k] == a[k]);
+    }
+}
+
+/// pushing a signal keeps every pending notification (usable with `broadcast use`: raw `push` statements carry no hint)
+broadcast proof fn lemma_upf_push_b(s: Seq<Signal>, x: Signal, d: usize)
+    ensures #![trigger has_upfail_signal(s.push(x), d)] #![trigger has_upfail_signal(s, d), s.push(x)]
+        has_upfail_signal(s.push(x), d) == (has_upfail_signal(s, d) || (x.kind == SignalKind::JobUpstreamFailure && x.node_idx == d)),
+{
+    lemma_upfail_push(s, x, d);
+    if has_upfail_signal(s.push(x), d) && !(x.kind == SignalKind::JobUpstreamFailure && x.node_idx == d) {
+        let k = choose|k: int| 0 <= k < s.push(x).len() && (#[trigger] s.push(x)[k]).kind == SignalKind::JobUpstreamFailure && s.push(x)[k].node_idx == d;
+        assert(k < s.len());
+        assert(s[k] == s.push(x)[k]);
+    }
+}
+
+broadcast proof fn lemma_upf_ext_b(a: Seq<Signal>, b: Seq<Signal>, n: nat)
+    requires #[trigger] sig_ext_consider(a, b, n),
+    ensures upf_mono(a, b),
+{
+    lemma_upf_prefix(a, b);
+}
+
+proof fn lemma_upf_kept(a: Seq<Signal>, b: Seq<Signal>)
+    requires forall|k: int| 0 <= k < a.len() && (#[trigger] a[k]).kind != SignalKind::ConsiderJob ==> b.contains(a[k]),
+    ensures upf_mono(a, b),
+{
+    assert forall|d: usize| #![trigger has_upfail_signal(a, d)] has_upfail_signal(a, d) implies has_upfail_signal(b, d) by {
+        lemma_upfail_kept(a, b, d);
+    }
+}
+
+proof fn lemma_upf_trans(a: Seq<Signal>, b: Seq<Signal>, c: Seq<Signal>)
+    requires upf_mono(a, b), upf_mono(b, c),
+    ensures upf_mono(a, c),
+{
+    assert forall|d: usize| #![trigger has_upfail_signal(a, d)] has_upfail_signal(a, d) implies has_upfail_signal(c, d) by {
+        assert(has_upfail_signal(b, d));
+    }
+}
+
+/// a job that needs a notice in the later state needed it in the earlier one (nothing returns to "not yet offered",
+/// skipped is reached from there only, and who is exempt depends on kinds and dependencies alone)
+proof fn lemma_needs_notice_back(dag: &GraphType, dag2: &GraphType, a: Seq<NodeInfo>, b: Seq<NodeInfo>, d: usize)
+    requires jobs_step(a, b), dag_dom_same(dag, dag2), edges_in_range(dag, a.len()), d < a.len(), needs_notice(dag2, b, d),
+    ensures needs_notice(dag, a, d),
+{
+    reveal(needs_notice);
+    assert(lc_le(a[d as int].state, b[d as int].state));
+    lemma_lc_consequences(a[d as int].state, b[d as int].state);
+    if !pre_offer(a[d as int].state) {
+        assert(is_skipped(b[d as int].state));
+        assert(is_skipped(a[d as int].state));
+        assert(a[d as int].state == b[d as int].state) by { lemma_lc_order(a[d as int].state, b[d as int].state, b[d as int].state); }
+        assert forall|i: int| 0 <= i < a.len() implies same_kind(a[i].state, (#[trigger] b[i]).state) by {
+            assert(lc_le(a[i].state, b[i].state));
+        }
+        lemma_all_eph_down_stable(dag, dag2, a, b, d);
+    }
+}
+
+/// the general step: the queue position may advance over the notification just handled, the job table moves forward,
+/// new causes have all their consumers notified
+proof fn lemma_pend_step(dag: &GraphType, dag2: &GraphType, a: Seq<NodeInfo>, b: Seq<NodeInfo>, q1: Seq<Signal>, fa: int, fb: int,
+    q2a: Seq<Signal>, q2b: Seq<Signal>)
+    requires
+        pend_ok(dag, a, q1, fa, q2a), jobs_step(a, b), dag_dom_same(dag, dag2), edges_in_range(dag, a.len()),
+        0 <= fa <= fb <= fa + 1, fb <= q1.len(), upf_mono(q2a, q2b),
+        fb == fa + 1 && q1[fa].kind == SignalKind::JobUpstreamFailure ==> q1[fa].node_idx < a.len() && !needs_notice(dag2, b, q1[fa].node_idx),
+        forall|u: usize, d: usize| #![trigger dag.has_edge(u, d)] dag.has_edge(u, d) && fail_cause(b[u as int].state) && !fail_cause(a[u as int].state)
+            ==> has_upfail_signal(q2b, d),
+    ensures pend_ok(dag2, b, q1, fb, q2b),
+{
+    reveal(pend_ok);
+    lemma_dag_dom_range(dag, dag2, a.len());
+    assert forall|u: usize, d: usize| #![trigger dag2.has_edge(u, d)] dag2.has_edge(u, d) && fail_cause(b[u as int].state) && needs_notice(dag2, b, d)
+        implies has_upfail_from(q1, fb, d) || has_upfail_signal(q2b, d) by {
+        assert(dag.has_edge(u, d));
+        if fail_cause(a[u as int].state) {
+            lemma_needs_notice_back(dag, dag2, a, b, d);
+            assert(has_upfail_from(q1, fa, d) || has_upfail_signal(q2a, d));
+            if has_upfail_signal(q2a, d) {
+                assert(has_upfail_signal(q2b, d));
+            } else {
+                let k = choose|k: int| fa <= k < q1.len() && (#[trigger] q1[k]).kind == SignalKind::JobUpstreamFailure && q1[k].node_idx == d;
+                if k == fa && fb == fa + 1 {
+                    assert(!needs_notice(dag2, b, d));
+                } else {
+                    assert(fb <= k);
+                }
+            }
+        }
+    }
+}
+
+/// a step that creates no new cause and does not move the queue position
+proof fn lemma_pend_quiet(dag: &GraphType, dag2: &GraphType, a: Seq<NodeInfo>, b: Seq<NodeInfo>, q1: Seq<Signal>, from: int,
+    q2a: Seq<Signal>, q2b: Seq<Signal>)
+    requires
+        pend_ok(dag, a, q1, from, q2a), jobs_step(a, b), no_new_cause(a, b), dag_dom_same(dag, dag2), edges_in_range(dag, a.len()),
+        0 <= from <= q1.len(), upf_mono(q2a, q2b),
+    ensures pend_ok(dag2, b, q1, from, q2b),
+{
+    assert forall|u: usize, d: usize| #![trigger dag.has_edge(u, d)] dag.has_edge(u, d) && fail_cause(b[u as int].state) && !fail_cause(a[u as int].state)
+        implies has_upfail_signal(q2b, d) by {}
+    lemma_pend_step(dag, dag2, a, b, q1, from, from, q2a, q2b);
+}
+
+/// the signal just taken from the queue is not a notification: nothing was pending on it
+proof fn lemma_pend_skip(dag: &GraphType, jobs: Seq<NodeInfo>, q1: Seq<Signal>, from: int, q2: Seq<Signal>)
+    requires pend_ok(dag, jobs, q1, from, q2), 0 <= from < q1.len(), q1[from].kind != SignalKind::JobUpstreamFailure,
+    ensures pend_ok(dag, jobs, q1, from + 1, q2),
+{
+    reveal(pend_ok);
+    assert forall|u: usize, d: usize| #![trigger dag.has_edge(u, d)] dag.has_edge(u, d) && fail_cause(jobs[u as int].state) && needs_notice(dag, jobs, d)
+        implies has_upfail_from(q1, from + 1, d) || has_upfail_signal(q2, d) by {
+        if !has_upfail_signal(q2, d) {
+            let k = choose|k: int| from <= k < q1.len() && (#[trigger] q1[k]).kind == SignalKind::JobUpstreamFailure && q1[k].node_idx == d;
+            assert(k != from);
+        }
+    }
+}
+
+/// no failed job at all: nothing can be pending
+proof fn lemma_pend_none(dag: &GraphType, jobs: Seq<NodeInfo>, q1: Seq<Signal>, from: int, q2: Seq<Signal>)
+    requires forall|i: int| 0 <= i < jobs.len() ==> !fail_cause(#[trigger] jobs[i].state), edges_in_range(dag, jobs.len()),
+    ensures pend_ok(dag, jobs, q1, from, q2),
+{
+    reveal(pend_ok);
+    assert forall|u: usize, d: usize| #![trigger dag.has_edge(u, d)] dag.has_edge(u, d) && fail_cause(jobs[u as int].state) && needs_notice(dag, jobs, d)
+        implies has_upfail_from(q1, from, d) || has_upfail_signal(q2, d) by {
+        assert(u < jobs.len());
+        assert(!fail_cause(jobs[u as int].state));
+    }
+}
+
+/// with nothing pending the clause holds whatever is put into the queue afterwards
+proof fn lemma_pend_of_iso(dag: &GraphType, jobs: Seq<NodeInfo>, q1: Seq<Signal>, q2: Seq<Signal>)
+    requires iso_ok(dag, jobs),
+    ensures pend_ok(dag, jobs, q1, 0, q2),
+{
+    reveal(pend_ok);
+    assert forall|u: usize, d: usize| #![trigger dag.has_edge(u, d)] dag.has_edge(u, d) && fail_cause(jobs[u as int].state) && needs_notice(dag, jobs, d)
+        implies has_upfail_from(q1, 0, d) || has_upfail_signal(q2, d) by {
+        assert(has_upfail_from(Seq::<Signal>::empty(), 0, d) || has_upfail_signal(Seq::<Signal>::empty(), d));
+    }
+}
+
+/// both queues exhausted
+proof fn lemma_iso_of_pend(dag: &GraphType, jobs: Seq<NodeInfo>, q1: Seq<Signal>, q2: Seq<Signal>)
+    requires pend_ok(dag, jobs, q1, q1.len() as int, q2), q2.len() == 0,
+    ensures iso_ok(dag, jobs),
+{
+    reveal(pend_ok);
+    assert forall|u: usize, d: usize| #![trigger dag.has_edge(u, d)] dag.has_edge(u, d) && fail_cause(jobs[u as int].state) && needs_notice(dag, jobs, d)
+        implies has_upfail_from(Seq::<Signal>::empty(), 0, d) || has_upfail_signal(Seq::<Signal>::empty(), d) by {
+        assert(has_upfail_from(q1, q1.len() as int, d) || has_upfail_signal(q2, d));
+    }
+}
+
+/// the signals queued during this wave become the queue of the next one
+proof fn lemma_pend_shift(dag: &GraphType, jobs: Seq<NodeInfo>, q1: Seq<Signal>, q2: Seq<Signal>)
+    requires pend_ok(dag, jobs, q1, q1.len() as int, q2),
+    ensures pend_ok(dag, jobs, q2, 0, Seq::<Signal>::empty()),
+{
+    reveal(pend_ok);
+    assert forall|u: usize, d: usize| #![trigger dag.has_edge(u, d)] dag.has_edge(u, d) && fail_cause(jobs[u as int].state) && needs_notice(dag, jobs, d)
+        implies has_upfail_from(q2, 0, d) || has_upfail_signal(Seq::<Signal>::empty(), d) by {
+        assert(has_upfail_from(q1, q1.len() as int, d) || has_upfail_signal(q2, d));
+        let k = choose|k: int| 0 <= k < q2.len() && (#[trigger] q2[k]).kind == SignalKind::JobUpstreamFailure && q2[k].node_idx == d;
+        assert(0 <= k < q2.len());
+    }
+}
+
+proof fn lemma_iso_empty()
+    ensures forall|jobs: Seq<NodeInfo>, dag: &GraphType| jobs.len() == 0 && edges_in_range(dag, 0) ==> #[trigger] iso_ok(dag, jobs),
+{
+    assert forall|jobs: Seq<NodeInfo>, dag: &GraphType| jobs.len() == 0 && edges_in_range(dag, 0) implies #[trigger] iso_ok(dag, jobs) by {
+        lemma_pend_none(dag, jobs, Seq::<Signal>::empty(), 0, Seq::<Signal>::empty());
+    }
+}
+
+/// a new job has no dependencies yet and the others are as they were
+proof fn lemma_iso_add_node(pre: Seq<NodeInfo>, post: Seq<NodeInfo>, dag0: &GraphType, dag1: &GraphType)
+    requires
+        iso_ok(dag0, pre), edges_in_range(dag0, pre.len()), post.len() == pre.len() + 1,
+        forall|i: int| 0 <= i < pre.len() ==> #[trigger] post[i] == pre[i],
+        dag1.edges() == dag0.edges(),
+    ensures iso_ok(dag1, post),
+{
+    reveal(pend_ok);
+    reveal(needs_notice);
+    assert forall|u: usize, d: usize| #![trigger dag1.has_edge(u, d)] dag1.has_edge(u, d) && fail_cause(post[u as int].state) && needs_notice(dag1, post, d)
+        implies has_upfail_from(Seq::<Signal>::empty(), 0, d) || has_upfail_signal(Seq::<Signal>::empty(), d) by {
+        assert(dag0.has_edge(u, d));
+        assert(post[u as int] == pre[u as int]);
+        assert(post[d as int] == pre[d as int]);
+        assert forall|i: int| 0 <= i < pre.len() implies same_kind(pre[i].state, (#[trigger] post[i]).state) by { assert(post[i] == pre[i]); }
+        assert forall|x: usize, y: usize| #![trigger dag1.has_edge(x, y)] dag1.has_edge(x, y) implies dag0.has_edge(x, y) by {}
+        if pre[d as int].state is Ephemeral && all_eph_down(dag0, pre, d) {
+            lemma_all_eph_down_sub(dag0, dag1, pre, post, d);
+        }
+        assert(needs_notice(dag0, pre, d));
+    }
 }
 
 /// pending decisions stay justified until they are handled:
